@@ -1,5 +1,6 @@
 ; ASSUME A1: a message whose handler returns an error is reverted by the SDK (cache-wrapped store), so invariants need only be re-established on success
 ; ASSUME A10: the module store is a finite map from the byte strings kbytes(k) to values; keyOf(kbytes(k)) = k and prefix scans are exact (proved at byte level in layer K for every family except earned fees, D9), for keys built from names without 0x00, 20-byte owners and non-negative heights
+; ASSUME A0: the invariants (WF, depInv, escInv, actInv, recInv, idxInv, schedInv, futInv, cntInv, cadInv) hold in the state after InitGenesis; every entry point re-establishes them
 ; ASSUME A14: batch counters stay below 2^63 (each batch occupies at least one block and heights stay below 2^62 by A13)
 ; ---- state theory: abstraction axioms (justified by layer K, property C18) and typed views of the store.
 (assert (forall ((k Key)) (! (= (keyOf (kbytes k)) k) :pattern ((kbytes k)))))
